@@ -79,15 +79,14 @@ Print Assumptions C05_remove_survivors.
 (* ---- start / end once.  For every operation of C05's quantifier, from every state whose trigger and entry
    times lie in (0, now] (DtInv2, an invariant of all runs, see C05_oracle_accepts_model):
    - exactly one DowntimeStart request per downtime that becomes triggered in the step (none while paused),
-     PROVIDED the step shows neither the lost-start nor the start-at-end-instant signature (both are
-     recorded findings, refuted below);
+     PROVIDED the step does not show the lost-start signature (a recorded finding, refuted below);
    - OnDowntimeRemoved exactly for the downtimes that disappear, which only dt_remove / the clean-up timer
      cause; exactly one DowntimeEnd request per removed downtime that had been triggered, none for one that
      never triggered. ---- *)
 Theorem C05_start_end_once : forall c now prev f o,
   DtInv2 now f -> c5_wf_step prev (c5_mk c now f o) = true ->
   let s := c5_mk c now f o in
-  (c5_sig_loststart (c_kind (fc_base c)) s = false -> c5_sig_endinstant s = false -> c5_chk_start s = true) /\
+  (c5_sig_loststart (c_kind (fc_base c)) s = false -> c5_chk_start s = true) /\
   c5_chk_removed s = true /\ c5_chk_end s = true.
 Proof. exact start_end_once_step. Qed.
 Print Assumptions C05_start_end_once.
@@ -147,14 +146,14 @@ Theorem C05_lost_start_refuted :
 Proof. exact lost_start_refuted. Qed.
 Print Assumptions C05_lost_start_refuted.
 
-Theorem C05_start_at_end_instant_refuted :
+(* formerly C05_start_at_end_instant_refuted: since /repo 51cd8e9 the start timer at exactly end_time no longer
+   announces the downtime again (1 DowntimeStart instead of 3) and the whole oracle accepts the run *)
+Theorem C05_start_at_end_instant_fixed :
   c5_wf_run wit_cfg 0 init_full wit_endinstant = true /\
-  total_cnt c5_is_start (c5_model_trace wit_cfg init_full wit_endinstant) = 3 /\
-  exists s, In s (c5_model_trace wit_cfg init_full wit_endinstant) /\
-            c5_chk_start s = false /\ c5_sig_endinstant s = true /\ c5_chk_depth s = true /\
-            length (filter (dt_in_effect (c5_now s)) (c5_post s)) = 0%nat.
-Proof. exact start_at_end_instant_refuted. Qed.
-Print Assumptions C05_start_at_end_instant_refuted.
+  total_cnt c5_is_start (c5_model_trace wit_cfg init_full wit_endinstant) = 1 /\
+  c5_oracle KService (c5_model_trace wit_cfg init_full wit_endinstant) = [].
+Proof. exact start_at_end_instant_fixed. Qed.
+Print Assumptions C05_start_at_end_instant_fixed.
 
 (* non-vacuity: a reachable run with a fixed downtime started by the timer, a flexible one chained to it,
    a non-OK result, a depth read, a clean-up and a removal meets every premise, shows none of the findings'
